@@ -84,21 +84,30 @@ def members_of(obj):
     return out
 
 
+PRISTINE = {}     # id(argument array) -> copy made before the call
+
+
+def _arg(a):
+    PRISTINE[id(a)] = a.copy()
+    return a
+
+
 def call_member(obj, name, kind, tmpdir):
-    """invoke a member with typical arguments; returns (result, argument arrays that must stay unchanged)"""
+    """invoke a member with typical arguments; returns (result, argument arrays that must stay unchanged);
+    pristine copies of the arguments, made before the call, are kept in PRISTINE"""
     if kind == "get":
         return getattr(obj, name), []
     f = getattr(obj, name)
     core = getattr(obj, "polyhedron", getattr(obj, "polygon", obj))
     c = np.asarray(getattr(core, "vertices", np.zeros((1, 3))), float).mean(axis=0) if hasattr(core, "vertices") else np.asarray(obj.centroid, float)
     if name == "is_inside":
-        pts = np.array([c, c + 10.0, c + np.array([0.01, 0.02, 0.0])])
+        pts = _arg(np.array([c, c + 10.0, c + np.array([0.01, 0.02, 0.0])]))
         return f(pts), [pts]
     if name == "compute_form_factor_amplitude":
-        q = np.array([[0.0, 0, 0], [0.3, 0.1, -0.2], [1.0, 2.0, 0.5], [0.0, 0.0, 0.7]])
+        q = _arg(np.array([[0.0, 0, 0], [0.3, 0.1, -0.2], [1.0, 2.0, 0.5], [0.0, 0.0, 0.7]]))
         return f(q), [q]
     if name == "distance_to_surface":
-        a = np.array([0.0, 0.5, 2.0, 4.0, -1.0])
+        a = _arg(np.array([0.0, 0.5, 2.0, 4.0, -1.0, 2 * np.pi, 7.5, -9.0]))
         return f(a), [a]
     if name == "get_face_area":
         return f(), []
@@ -216,8 +225,9 @@ def check_sequence(cls_name, seq, tmpdir, variant=0):
         if not np.allclose(arr, cp, rtol=0, atol=tol * max(1.0, float(np.abs(cp).max()) if cp.size else 1.0)):
             problems.append(f"array handed out earlier by .{hn} was modified")
     for a, c in zip(a1, a1c):
-        if not np.array_equal(a, c):
-            problems.append("argument array modified")
+        c0 = PRISTINE.get(id(a), c)
+        if not np.array_equal(a, c) or a.shape != c0.shape or not np.array_equal(a, c0):
+            problems.append(f"argument array modified (passed {c0.reshape(-1)[:8].tolist()}, afterwards {a.reshape(-1)[:8].tolist()})")
     if r1 is not None and not same_result(r1, r2):
         problems.append(f"repeating {name} gave a different answer")
     return problems
